@@ -33,13 +33,36 @@ var checks = map[string]*CheckDef{}
 func registerCheck(c *CheckDef) { checks[c.ID] = c }
 
 type KnownFinding struct {
-	ID       string     `json:"id"`
-	Property string     `json:"property"`
-	Status   string     `json:"status"` // open | fixed
-	Title    string     `json:"title"`
-	Witness  ReplayCase `json:"witness"`
-	Pkg      string     `json:"pkg"`
-	Note     string     `json:"note,omitempty"`
+	ID         string     `json:"id"`
+	Property   string     `json:"property"`             // property whose check reports it
+	AlsoIn     []string   `json:"also_in,omitempty"`    // other properties whose checks exclude it too
+	Status     string     `json:"status"`               // open | fixed
+	Title      string     `json:"title"`
+	Witness    ReplayCase `json:"witness"`              // one concrete failing input (harness + arguments)
+	Pkg        string     `json:"pkg"`                  // package of the witness harness
+	Configs    []string   `json:"scope_configs,omitempty"` // configuration-id globs skipped while the finding is active
+	Predicate  string     `json:"scope_predicate,omitempty"` // name of the vv.Known predicate in the harness (documentation)
+	Note       string     `json:"note,omitempty"`
+}
+
+func globMatch(pat, s string) bool {
+	// '*' matches any (possibly empty) substring
+	parts := strings.Split(pat, "*")
+	if len(parts) == 1 {
+		return pat == s
+	}
+	if !strings.HasPrefix(s, parts[0]) {
+		return false
+	}
+	s = s[len(parts[0]):]
+	for i := 1; i < len(parts)-1; i++ {
+		j := strings.Index(s, parts[i])
+		if j < 0 {
+			return false
+		}
+		s = s[j+len(parts[i]):]
+	}
+	return strings.HasSuffix(s, parts[len(parts)-1])
 }
 
 type KFFile struct {
@@ -113,7 +136,13 @@ func runCheck(id string, o checkOpts) int {
 	byPkg := map[string][]ReplayCase{}
 	kfByID := map[string]KnownFinding{}
 	for _, f := range kf.Findings {
-		if f.Property != id || f.Status != "open" {
+		rel := f.Property == id
+		for _, p := range f.AlsoIn {
+			if p == id {
+				rel = true
+			}
+		}
+		if !rel || f.Status != "open" {
 			continue
 		}
 		c := f.Witness
@@ -132,7 +161,7 @@ func runCheck(id string, o checkOpts) int {
 			o := outs[c.ID]
 			if o.Outcome == "assert" || o.Outcome == "panic" || o.Outcome == "timeout" {
 				active = append(active, c.ID)
-				fmt.Printf("KNOWN-FINDING: property=%s %s [%s] witness %s(%s)\n", id, kfByID[c.ID].Title, c.ID, c.Func, strings.Join(c.Args, ", "))
+				fmt.Printf("KNOWN-FINDING: property=%s %s [%s] witness %s(%s)\n", kfByID[c.ID].Property, kfByID[c.ID].Title, c.ID, c.Func, strings.Join(c.Args, ", "))
 				kfSeen = append(kfSeen, c.ID)
 			} else {
 				fmt.Printf("NOTE: known finding %s no longer reproduces (outcome %s); no exclusion applied\n", c.ID, o.Outcome)
@@ -150,6 +179,27 @@ func runCheck(id string, o checkOpts) int {
 			}
 		}
 		cfgs = f
+	}
+	// configurations inside the scope of an active known finding are not run
+	excluded := 0
+	{
+		var keep []*Config
+		for _, c := range cfgs {
+			skip := false
+			for _, a := range active {
+				for _, g := range kfByID[a].Configs {
+					if globMatch(g, c.ID) {
+						skip = true
+					}
+				}
+			}
+			if skip {
+				excluded++
+			} else {
+				keep = append(keep, c)
+			}
+		}
+		cfgs = keep
 	}
 	if o.limit > 0 && len(cfgs) > o.limit {
 		cfgs = cfgs[:o.limit]
@@ -487,6 +537,7 @@ func runCheck(id string, o checkOpts) int {
 			"natives_used":                  natives,
 			"notes":                         notes,
 			"known_findings_seen":           kfSeen,
+			"configs_excluded_by_known_findings": excluded,
 			"inputs_covered":                inputs.String(),
 			"confirmed_violations":          firstW(confirmed, 10),
 			"exhaustive":                    false,
